@@ -94,6 +94,12 @@ var Mutants = []Mutant{
 	{ID: "for-counts-as-terminating", Props: []string{"C05", "C02"}, Rule: "R-TERMCONJ", File: "pkg/parser/ast.go", Find: "func (*ForStmt) alwaysTerminates() bool {\n\treturn false\n}", Replace: "func (f *ForStmt) alwaysTerminates() bool {\n\treturn f.Block.alwaysTerminates()\n}", Expect: "(*ForStmt).alwaysTerminates#kind", Describe: "a for loop whose body returns counts as terminating although it may run zero times"},
 	{ID: "missing-return-only-nonempty", Props: []string{"C05", "C02"}, Rule: "R-TERMCONJ", File: "pkg/parser/parser.go", Find: "\tif fd.ReturnType != NONE_TYPE && !block.alwaysTerminates() {\n\t\tp.appendError(\"missing return\")", Replace: "\tif fd.ReturnType != NONE_TYPE && !block.alwaysTerminates() && len(block.Statements) > 1 {\n\t\tp.appendError(\"missing return\")", Expect: "parseFunc#missing-return", Describe: "a one-statement function body without return is accepted"},
 	{ID: "wss-recorded-before-validation-return", Props: []string{"C06"}, Rule: "R-WSSKEEP", File: "pkg/parser/expression.go", Find: "\tp.validateBinaryType(binaryExp)\n\tif p.isWSS() {\n\t\tp.formatting.recordWSS(binaryExp)\n\t}\n", Replace: "\tif p.isWSS() && binaryExp.T != nil {\n\t\tp.formatting.recordWSS(binaryExp)\n\t}\n\tp.validateBinaryType(binaryExp)\n", Expect: "parseBinaryExpr#records-wss", Describe: "an untyped binary expression in a list is not recorded as white-space sensitive"},
+	{ID: "accepts-any-takes-none", Props: []string{"C04", "C05"}, Rule: "R-TYPEREL", File: "pkg/parser/type.go", Find: "case left.Name == ANY && right.Name != NONE && (left == t || !rightFixed):", Replace: "case left.Name == ANY && (left == t || !rightFixed):", Expect: "accepts#any-never-none", Describe: "`a:any` `a = noret` is accepted"},
+	{ID: "repetition-type-from-count", Props: []string{"C04"}, Rule: "R-TYPEREL", File: "pkg/parser/expression.go", Find: "if expType != nil && expType.Name == ARRAY && binaryExp.Op == OP_PLUS {", Replace: "if expType != nil && expType.Name == ARRAY {", Expect: "parseBinaryExpr#result-type-from-right-operand", Describe: "`[] * 3` gets the static type num"},
+	{ID: "combine-empty-of-other-kind", Props: []string{"C04"}, Rule: "R-TYPEREL", File: "pkg/parser/type.go", Find: "\t\tif (t.Name == ARRAY || t.Name == MAP) && t.Name == combinedT.Name {\n\t\t\tswitch {\n\t\t\tcase t == EMPTY_ARRAY, t == EMPTY_MAP: // do nothing", Replace: "\t\tif t == EMPTY_ARRAY || t == EMPTY_MAP {\n\t\t\tcontinue\n\t\t}\n\t\tif (t.Name == ARRAY || t.Name == MAP) && t.Name == combinedT.Name {\n\t\t\tswitch {\n\t\t\tcase t == EMPTY_ARRAY, t == EMPTY_MAP: // do nothing", Expect: "combineTypes#wildcard", Describe: "`[[1] {}]` gets the type [][]num"},
+	{ID: "wrapany-group-only-for-empty", Props: []string{"C03"}, Rule: "R-FIXED", File: "pkg/parser/ast.go", Find: "\tif group, ok := val.(*GroupExpression); ok { // parenthesised literal, e.g. ([1 2])\n\t\tgroup.Expr = wrapAny(group.Expr, targetType)\n\t\treturn group\n\t}\n", Replace: "", Expect: "wrapAny#gives-up-only-for-non-groups", Describe: "`x:[]any` `x = ([1 2])` panics in the parser"},
+	{ID: "unused-check-only-before-end", Props: []string{"C05"}, Rule: "R-BLOCKKEEP", File: "pkg/parser/parser.go", Find: "\t\tp.appendErrorForToken(\"at least one statement is required here\", block.token)\n\t}\n\tp.validateScope()\n", Replace: "\t\tp.appendErrorForToken(\"at least one statement is required here\", block.token)\n\t}\n\tif p.cur.TokenType() == lexer.END {\n\t\tp.validateScope()\n\t}\n", Expect: "parseBlockWithEndTokens#validates-scope-on-every-path", Describe: "unused variables in an if branch that is followed by else are accepted"},
+	{ID: "blank-after-return-dropped", Props: []string{"C06", "C05"}, Rule: "R-BLOCKKEEP", File: "pkg/parser/parser.go", Find: "\t\t\t\tp.appendErrorForToken(\"unreachable code\", tok)\n\t\t\t\tcontinue\n\t\t\t}\n\t\t}", Replace: "\t\t\t\tp.appendErrorForToken(\"unreachable code\", tok)\n\t\t\t}\n\t\t\tcontinue\n\t\t}", Expect: "parseBlockWithEndTokens#keeps-or-diagnoses", Describe: "comment lines behind the last return of a block are parsed and dropped"},
 	// C05 / C06
 	{ID: "break-no-eol", Props: []string{"C05", "C06"}, Rule: "R-EOLSTATE", File: "pkg/parser/parser.go", Find: "\tp.advance() // advance past BREAK token\n\tp.assertEOL()\n", Replace: "\tp.advance() // advance past BREAK token\n", Expect: "parseBreakStatement#skip", Describe: "text after break is skipped"},
 	{ID: "if-end-no-eol", Props: []string{"C05", "C06"}, Rule: "R-EOLSTATE", File: "pkg/parser/parser.go", Find: "\tp.assertEnd()\n\tp.advance()\n\tp.assertEOL()\n\tp.recordComment(ifStmt)", Replace: "\tp.assertEnd()\n\tp.advance()\n\tp.recordComment(ifStmt)", Expect: "parseIfStatement#skip", Describe: "text after the end of an if is skipped"},
@@ -129,6 +135,7 @@ var Mutants = []Mutant{
 	{ID: "stack-while-break-target", Props: []string{"C17"}, Rule: "R-STACKEFFECT", File: "pkg/bytecode/compiler.go", Find: "\t// Prepare end position of while block, jump to end if condition is false\n\tjumpOnFalsePos, err := c.emitPos(OpJumpOnFalse, JumpPlaceholder)", Replace: "\tif err := c.emit(OpTrue); err != nil {\n\t\treturn err\n\t}\n\tif err := c.emit(OpDrop, 1); err != nil {\n\t\treturn err\n\t}\n\tif err := c.Compile(stmt.Condition); err != nil {\n\t\treturn err\n\t}\n\tjumpOnFalsePos, err := c.emitPos(OpJumpOnFalse, JumpPlaceholder)", Expect: "jump-height", Describe: "the while loop evaluates its condition twice and keeps the first result: the back jump arrives one value higher each iteration"},
 	{ID: "scope-update-stops-at-first-scope", Props: []string{"C10", "C09"}, Rule: "R-SCOPECHAIN", File: "pkg/evaluator/scope.go", Find: "\tif s.outer == nil {\n\t\treturn false\n\t}\n\treturn s.outer.update(name, val)", Replace: "\tif s.outer == nil {\n\t\treturn false\n\t}\n\tif s.outer.outer == nil {\n\t\ts.outer.values[name] = val\n\t\treturn true\n\t}\n\treturn s.outer.update(name, val)", Expect: "(*scope).update#", Describe: "an assignment that reaches the global scope creates the variable there instead of failing"},
 	{ID: "assignment-binds-locally", Props: []string{"C10", "C09"}, Rule: "R-SCOPECHAIN", File: "pkg/evaluator/evaluator.go", Find: "\t\tif !e.scope.update(n.Name, val) {\n\t\t\treturn newErr(n, fmt.Errorf(\"%w: %s\", ErrVarNotSet, n.Name))\n\t\t}\n\t\treturn nil", Replace: "\t\tif _, ok := e.scope.get(n.Name); !ok {\n\t\t\treturn newErr(n, fmt.Errorf(\"%w: %s\", ErrVarNotSet, n.Name))\n\t\t}\n\t\te.scope.set(n.Name, val)\n\t\treturn nil", Expect: "evalAssignment#binds-through:update", Describe: "an assignment inside a block creates a new variable in the block"},
+	{ID: "loopvar-zeroed-before-operands", Props: []string{"C02", "C10"}, Rule: "R-LOOPVARINIT", File: "pkg/evaluator/evaluator.go", Find: "\tr, err := e.newRange(f)\n\tif err != nil {\n\t\treturn nil, err\n\t}\n\tloopVarName := \"_\"\n\tif f.LoopVar != nil {\n\t\tloopVarName = f.LoopVar.Name\n\t}", Replace: "\tloopVarName := \"_\"\n\tif f.LoopVar != nil {\n\t\tloopVarName = f.LoopVar.Name\n\t\te.scope.set(loopVarName, zero(f.LoopVar.Type()))\n\t}\n\tr, err := e.newRange(f)\n\tif err != nil {\n\t\treturn nil, err\n\t}", Expect: "evalFor#loopvar-created-after-operands", Describe: "`for x := range x` ranges over the loop variable's zero value"},
 	// C08
 	{ID: "printf-composite-as-pointer", Props: []string{"C08"}, Rule: "R-ADDRPRINT", File: "pkg/evaluator/value.go", Find: "\t\treturn unwrapBasicvalue(v.V)\n\tdefault:\n\t\treturn v.String()\n\t}\n", Replace: "\t\treturn unwrapBasicvalue(v.V)\n\t}\n\treturn val\n", Expect: "sprintf#fmt-dynamic-args", Describe: "printf \"%d\" [1 2] prints a heap address"},
 	{ID: "mapstring-go-order", Props: []string{"C08", "C12"}, Rule: "R-MAPRANGE", File: "pkg/evaluator/value.go", Find: "func (m *mapVal) String() string {\n\tpairs := make([]string, 0, len(m.Pairs))\n\tfor _, key := range *m.Order {\n\t\tpairs = append(pairs, key+\":\"+m.Pairs[key].String())", Replace: "func (m *mapVal) String() string {\n\tpairs := make([]string, 0, len(m.Pairs))\n\tfor key, v := range m.Pairs {\n\t\tpairs = append(pairs, key+\":\"+v.String())", Expect: "(*mapVal).String#maprange", Describe: "maps print in Go map order"},
